@@ -283,7 +283,12 @@ def run(facts, rep, ctx):
                         rows += 1
                         # only the validation prefix matters: a panic raised *after* all validations
                         # passed on a valid request would be in helper arithmetic
-                        pan = [o for o in outs if o["panic"]]
+                        # (an `assert!`/`debug_assert!` whose condition the evaluator cannot decide is a stated
+                        # invariant on a path it cannot refute, not a panic it has found)
+                        pan = [o for o in outs if o["panic"] and "(assertion)" not in str(o["panic"]) and (o["definite"] or "explicit panic" not in str(o["panic"]))]
+                        if [o for o in outs if o["panic"]] and not pan:
+                            undecided.add("%s: an assertion on a path that could not be refuted at size=%s address=%s amount=%s" % (op, S, hx(a), hx(n)))
+                            outs = [o for o in outs if not o["panic"]]
                         if pan:
                             bad.append(("panic", S, a, n, pan[0]["panic"]))
                             continue
@@ -338,13 +343,28 @@ def run(facts, rep, ctx):
             if touched:
                 rep.inconc(R1, "%s builds the new `%s` and then edits it in place (%s) before storing it; only whole-value rebuilds are understood" % (op, name, touched[0]))
                 continue
+            # edits of the field *after* the rebuilt value was stored (`self.pointers.retain(..)` as a post-step):
+            # a `retain` is applied to the evaluated table entry by entry, anything else is not understood
+            from c04 import RESIZING as _RSZ
+            si_ = work.events.index(stores[name])
+            post = [e2 for e2 in work.events[si_ + 1:] if e2["k"] == "call" and e2["callee"] and e2["args"]
+                    and e2["callee"].rsplit("::", 1)[-1] in tuple(_MUT) + tuple(_RSZ)
+                    and root_field(e2["args"][0], False)[:2] == (True, name)
+                    and e2["callee"].rsplit("::", 1)[-1] not in ("len", "get", "iter", "contains_key", "keys", "values")]
+            if any(not e2["callee"].endswith("::retain") or len(e2["args"]) != 2 for e2 in post) or (post and kind == "value-elems"):
+                rep.inconc(R1, "%s edits `%s` again after storing the rebuilt value (%s); only a `retain` post-step is understood" % (
+                    op, name, post[0]["callee"].rsplit("::", 1)[-1]))
+                continue
             late = after_edit_len_reads(work)
-            a, S = 16, 64
+            S = 64
             mism = []
             rows = 0
-            for n in (4, 8):
+            for a, n in ((16, 4), (16, 8), (0, 4)):      # (an edit at address 0: nothing lies below it)
+                if a == 0 and kind == "value-elems":
+                    continue    # the bucket representative needs a second cell in front of the edit
+
                 val = subst_len(val0, late, S + n if op == "allocate" else S - n) if late else val0
-                xs = sorted(set([0, 4, a - 4, a - 3, a - 1, a, a + 1, a + 3, a + 4, a + n - 1, a + n, a + n + 1, a + n + 4, a + 2 * n, S - 4, S]))
+                xs = sorted(x_ for x_ in set([0, 4, a - 4, a - 3, a - 1, a, a + 1, a + 3, a + 4, a + n - 1, a + n, a + n + 1, a + n + 4, a + 2 * n, S - 4, S]) if x_ >= 0)
                 ys = xs if kind == "key+value" else [None]
                 if not fname_is_label(name):
                     xs = [x for x in xs if x + 4 <= S]  # cells lie inside the data; labels/targets may equal the size
@@ -356,7 +376,17 @@ def run(facts, rep, ctx):
                             env = {("p", 1): self_value(fv, S), ("p", 2): a, ("p", 3): n, ("p", 4): ge}
                             want = (spec_allocate if op == "allocate" else spec_deallocate)(kind, x, y, a, n, ge, name)
                             try:
-                                got = read_result(kind, E.ev(val, env, b))
+                                mv = E.ev(val, env, b)
+                                for e2 in post:
+                                    mv = deref(mv)
+                                    if isinstance(mv, SeqVal) and not mv.items:
+                                        break       # nothing left to retain
+                                    if not isinstance(mv, MapVal):
+                                        raise Unknown("retain post-step on a value that is not a map: %r" % (mv,))
+                                    c_ = e2["args"][1]
+                                    clo = E.ev(subst_len(c_, late, S + n if op == "allocate" else S - n) if late else c_, env, b)
+                                    mv = MapVal(tuple((k_, v_) for (k_, v_) in mv.pairs if E.call_closure(clo, [Ref(k_), Ref(v_)])))
+                                got = read_result(kind, mv)
                             except Unknown as u:
                                 rep.inconc(R1, "%s/%s: %s" % (op, name, u))
                                 got = "?"
@@ -366,13 +396,13 @@ def run(facts, rep, ctx):
                                 break
                             rows += 1
                             if got != want:
-                                mism.append({"n": n, "ge": ge, "x": x, "y": y, "got": got, "want": want})
+                                mism.append({"a": a, "n": n, "ge": ge, "x": x, "y": y, "got": got, "want": want})
             rep.count("relocation_classes", rows)
             if mism:
                 ex = mism[0]
                 rep.violation(R1, b.name, "table:" + name,
                               "%s on `%s`: with a=%d n=%d ge=%s an entry at %s%s becomes %s, specified %s (%d of %d classes differ)" % (
-                                  op, name, a, ex["n"], ex["ge"], ex["x"], ("->%s" % ex["y"]) if ex["y"] is not None else "",
+                                  op, name, ex["a"], ex["n"], ex["ge"], ex["x"], ("->%s" % ex["y"]) if ex["y"] is not None else "",
                                   ex["got"], ex["want"], len(mism), rows),
                               "%s:%s" % (b.file, stores[name]["line"]))
             elif rows:
